@@ -545,9 +545,20 @@ func bufK1Case(h *hctx, id int) {
 				h.count("op_closec", 1)
 			}
 		case x < 97:
-			if r.pendClB == nil && !r.closedB && len(r.pendGet) == 0 {
+			if r.pendClB == nil && !r.closedB && (len(r.pendGet) == 0 || rng.Intn(2) == 0) {
 				o := r.exec([]int{11}, func() []int { return errOut(r.b.Close()) })
 				r.closedB = true
+				// Gets parked on an exhausted buffer are released by the close (and must fail)
+				for c, g := range r.pendGet {
+					select {
+					case <-g.done:
+						h.count("get_released_by_closeb", 1)
+					case <-time.After(2 * time.Second):
+						h.line("MONITOR C05 a parked Get of consumer %d did not return within 2 s of Buffer.Close (case %d)", c, id)
+						r.record(fmt.Sprintf("k1-%d-%d-hung", h.seed, id), []int{kind, mx, tg})
+						return
+					}
+				}
 				if r.freeze(o, []int{5}) {
 					r.pendClB = &bufOp{done: o.done}
 					r.instant([]int{17}, []int{9, 1})
